@@ -1,7 +1,7 @@
 (* C03 property theorems.  Only statements closed by [exact]; each followed by Print Assumptions.
    The value-level theorems quantify over EVERY inferrer (hence every inference flag -S/-A/-O/default and any
    future one), every pair of input strings and every history of read operations of C03.Model. *)
-From Miller Require Import Base.Bytes Base.Record C06.Model C06.Harness C03.Model C03.Proofs C03.RecordProofs C03.Harness.
+From Miller Require Import Base.Bytes Base.Record C06.Model C06.Harness C03.Model C03.Proofs C03.RecordProofs C03.MovedProofs C03.Harness.
 Open Scope Z_scope.
 
 (* reading never changes what the writer emits: for all byte strings s1 s2, all inference behaviours, all histories
@@ -58,6 +58,27 @@ Theorem C03_unassigned_fields_pass_through :
 Proof. exact unassigned_fields_pass_through. Qed.
 Print Assumptions C03_unassigned_fields_pass_through.
 
+(* fields that are only moved (reorder) or merely read keep their bytes: for every key outside the write set the output
+   cell is the input text (records have unique keys, as every Mlrmap does) *)
+Theorem C03_moved_fields_keep_bytes :
+  forall (inferrer : bytes -> ival) (prog : list ract) (r : record),
+  wf_record r = true ->
+  forall k, mem k (write_set prog) = false ->
+  aget k (run_program inferrer None prog r) = option_map CKnown (get k r).
+Proof. exact moved_fields_keep_bytes. Qed.
+Print Assumptions C03_moved_fields_keep_bytes.
+
+(* the documented JSON re-rendering: after any pure read history the JSON writer keeps a float's text iff it is a legal
+   JSON number, always prints ints in decimal, and quotes everything else -- a function of the input text alone *)
+Theorem C03_json_rerender_only_when_invalid :
+  forall (inferrer : bytes -> ival) (s1 s2 : bytes) (ops : list rop),
+  forallb pure_rop ops = true ->
+  let st := fst (run inferrer None ops (from_data s1, from_data s2)) in
+  snd (format_as_json inferrer None (fst st)) = json_of_text inferrer s1
+  /\ snd (format_as_json inferrer None (snd st)) = json_of_text inferrer s2.
+Proof. exact json_rerender_only_when_invalid. Qed.
+Print Assumptions C03_json_rerender_only_when_invalid.
+
 (* non-vacuity: concrete numerals of every spelling class, a read history touching type tests, getters, comparators in
    both orders, Copy and the stringifier; a record program with reads, derived assignments, rename, unset, reorder *)
 Example C03_nonvacuous :
@@ -65,9 +86,12 @@ Example C03_nonvacuous :
               OnX UCopy; OnY UFormatAsJSON; Bin BNumericDescending; OnX UStringify; OnY (UBif true true)] in
   forallb pure_rop [OnX UType; Bin BCmp; OnY UCopy; OnX UString] = true
   /\ map fst (snd (run (ginfer FDefault) None ops (from_data (B "0xff"), from_data (B "1.500"))))
-     = [0; 1; 1; 1; 4643176031446892544; 0; -7; -1; 0; -7]
+     = [0; 1; 1; 1; 4643176031446892544; 0; 0; -1; 0; -7]
   /\ ty (fst (fst (run (ginfer FDefault) None ops (from_data (B "0xff"), from_data (B "1.500"))))) = TString
   /\ ty (snd (fst (run (ginfer FA) None [OnY UType] (from_data (B "0xff"), from_data (B "+5"))))) = TFloat
+  /\ json_of_text (ginfer FDefault) (B "1.500") = JSame (B "1.500") /\ json_of_text (ginfer FDefault) (B "+.5e1") = JRerendered
+  /\ json_of_text (ginfer FDefault) (B "0xff") = JDecimal (B "255") /\ json_of_text (ginfer FDefault) (B "007") = JQuoted
+  /\ wf_record [(B "a", B "0xff"); (B "b", B "007"); (B "c", B "x"); (B "d", B "1e3"); (B "e", B "1.500")] = true
   /\ run_program (ginfer FDefault) None
        [RRead (B "a") [UType; UIsNumeric]; RDerive (B "a") [UGetIntValue] DTypeof (B "t"); RRename (B "b") (B "bb");
         RRemove (B "c"); RMoveToHead (B "d")]
